@@ -151,7 +151,7 @@ pub trait Check: Sync + Send {
     /// Real-time watchdog per run (seconds). It only exists to turn a genuine
     /// hang into a report: the bounded work of a run is far below it.
     fn watchdog_secs(&self) -> u64 {
-        90
+        150
     }
     /// Is "a run did not return" a violation of this property? Every claimed property says that the
     /// operation under test RETURNS something (a state, a member, a genome, a collection, an error), and the
